@@ -1,5 +1,5 @@
 //! bounded(every *.block, *.tx and *.header fixture of /repo/test_data; of each: every truncation to a length <= 64 and a sample of longer ones, every single-bit
-//! flip in the first 48 bytes and at a stride through the rest, bytes replaced by 0x00 / 0x1b / 0x5f / 0x9f / 0xbf / 0xff at a stride (length-field and
+//! flip in the first 48 bytes and at a stride through the rest, bytes replaced by 0x00 / 0x1b / 0x5b / 0x7b / 0x9b / 0xbb / 0x5f / 0x9f / 0xbf / 0xff or turned into an all-ones 4- / 8-byte length of their own major type at a stride (length-field and
 //! indefinite-marker corruption), and splices of the first half with the second half of the next fixture; plus every output and address found in the decodable
 //! fixtures and 21 crafted Plutus data items (every constructor form, bignums, chunked strings, containers in both length forms, nested) bare and as inline datums,
 //! under the same damage; `thorough` divides the strides by 8): MultiEraBlock::decode, MultiEraTx::decode and decode_for_era (7 eras),
@@ -78,7 +78,8 @@ fn main() {
             for bit in 0..8 { let mut m = bytes.clone(); m[pos] ^= 1 << bit; run(format!("{name} with bit {bit} of byte {pos} flipped"), kind, &m); }
         }
         for pos in (0..len).step_by(stride.max(2)) {
-            for v in [0x00u8, 0x1b, 0x5f, 0x9f, 0xbf, 0xff, 0x3b, 0xdb] { if bytes[pos] != v { let mut m = bytes.clone(); m[pos] = v; run(format!("{name} with byte {pos} replaced by {v:#04x}"), kind, &m); } }
+            for v in [0x00u8, 0x1b, 0x5f, 0x9f, 0xbf, 0xff, 0x3b, 0xdb, 0x5b, 0x7b, 0x9b, 0xbb] { if bytes[pos] != v { let mut m = bytes.clone(); m[pos] = v; run(format!("{name} with byte {pos} replaced by {v:#04x}"), kind, &m); } }
+            for (ai, fill) in [(27u8, 8usize), (26, 4)] { let mut m = bytes[..pos].to_vec(); m.push((bytes[pos] & 0xe0) | ai); m.extend(std::iter::repeat(0xffu8).take(fill)); m.extend_from_slice(&bytes[pos + 1..]); run(format!("{name} with byte {pos} turned into a {fill}-byte length of all ones"), kind, &m); }
         }
         let next = &corpus[(idx + 1) % corpus.len()].2;
         let mut sp = bytes[..len / 2].to_vec(); sp.extend_from_slice(&next[next.len() / 2..]);
